@@ -263,7 +263,7 @@ def _check_script(P, choose, check, fail):
     from pytezos.contract.interface import ContractInterface
 
     ctx, table, R = _script_setup(choose)
-    script, unknown = _whole_script(choose, R, 's1')
+    script, unknown = _whole_script(choose, R, 's1') if P['via'] == 'interface' else (None, False)
     if P['via'] == 'interface':
         try:
             ci = ContractInterface.from_micheline(script, ctx)
@@ -282,6 +282,31 @@ def _check_script(P, choose, check, fail):
         exp = ref_resolve(script, table)
         check(ci.to_micheline() == exp, 'ContractInterface.from_micheline expands every section (parameter, storage, code, views)')
         check(ci.context.views_expr == _section(exp, 'view'), 'the view sections kept by the context are expanded')
+        return
+    if P['via'] == 'views':
+        # one view out of two: expanding the requested view does not depend on what the sibling view references
+        script, unknown = _whole_script(choose, R, 's3', ('view_body', 'view_out'))
+        sibling_unknown = choose('sibling_unknown', 0, 1)
+        sib = {'prim': 'view', 'args': [{'string': 'other'}, NAT, ref(UNKNOWN) if sibling_unknown else R['int'], VBODY_PLAIN]}
+        c3 = I.ExecutionContext(script={'code': script + [sib]}, global_constants=ctx.global_constants)
+        try:
+            got = c3.get_view_expr('seven')
+        except KeyError as e:
+            fail(f'get_view_expr raised {e} for a view whose own references are ' + ('not all registered' if unknown else 'all registered'))
+            return
+        if unknown:
+            check(got is None or False, 'a view that references an unknown hash is not expanded')
+        else:
+            check(got == ref_resolve(_section(script, 'view')[0], table), 'get_view_expr(name) expands the requested view whatever its sibling references')
+        # the storage value (data position) with an EMPTY registry: every reference is unknown
+        c4 = I.ExecutionContext(script={'code': script, 'storage': {'prim': 'Pair', 'args': [R['lit'], {'int': '1'}]}})
+        try:
+            c4.get_storage_value()
+            fail('get_storage_value expanded a reference although nothing is registered in that context')
+        except KeyError:
+            pass
+        c5 = I.ExecutionContext(script={'code': script, 'storage': {'prim': 'Pair', 'args': [R['lit'], {'int': '1'}]}}, global_constants=ctx.global_constants)
+        check(c5.get_storage_value() == {'prim': 'Pair', 'args': [LIT, {'int': '1'}]}, 'get_storage_value expands references in the data position')
         return
     # section getters of one context, for two scripts in a row
     script, unknown = _whole_script(choose, R, 's1', ('storage', 'view_out', 'push_lit'))
@@ -325,6 +350,9 @@ def obligations(tier):
     extra = [Ob('script/through-ContractInterface.from_micheline', 'bvx', sym_script, conc_script, {'via': 'interface'}, timeout=300,
                 bounds='script with a view: 6 reference sites (storage type, view input/output types, view body, PUSH type, PUSH literal) each plain / reference / unknown hash (solver-chosen); '
                        'the body constant refers to other constants', targets=TARGETS + ['pytezos.contract.interface.ContractInterface.from_micheline']),
+             Ob('script/one-view-of-two-and-storage-value', 'bvx', sym_script, conc_script, {'via': 'views'}, timeout=300,
+                bounds='get_view_expr(name) on a script with two views (the sibling references a registered or an unknown hash); get_storage_value with an empty and with a filled registry',
+                targets=TARGETS + ['pytezos.context.impl.ExecutionContext.get_view_expr/get_storage_value']),
              Ob('script/through-section-getters-twice', 'bvx', sym_script, conc_script, {'via': 'getters'}, timeout=600,
                 bounds='the same with 3 varying sites per script, read through get_parameter_expr/get_storage_expr/get_code_expr/get_views_expr of one context for two scripts set one after the other',
                 targets=TARGETS + ['pytezos.context.impl.ExecutionContext.get_parameter_expr/get_storage_expr/get_code_expr/get_views_expr/set_*_expr'])]
